@@ -14,105 +14,103 @@ namespace Spq
 namespace Module
 open Spq.Reim4
 
-structure Cfg where
+/-- the pieces a module is made of, abstract in the DFT-space carrier `α` (binary64 patterns for execution,
+    a commutative ring for the exact-arithmetic theorems) -/
+structure Parts (α : Type) where
   nn : Nat
-  fftFma : Bool          -- reim_fft_avx2_fma installed (else reim_fft_ref)
-  ifftFma : Bool
-  fromBnd50 : Bool       -- reim_from_znx64_bnd50_fma installed (else plain cast)
-  toVariant : Conv.ToZnx64Variant   -- module builds its table with divisor m, log2bound 63
-  mulFma : Bool          -- reim_fftvec_mul_fma
-  addmulFma : Bool       -- reim_fftvec_addmul_fma
-  vmpAvx : Bool          -- fft64_vmp_*_avx
-  fftT : Array Nat
-  ifftT : Array Nat
+  ar : RArith α
+  fromZnx : Array Int → Array α        -- int64 coefficients -> DFT-space carrier (conversion)
+  fft : Array α → Array α
+  ifft : Array α → Array α
+  toZnx : Array α → Array Int          -- divide by m and round
+  mulFma : Bool
+  addmulFma : Bool
+  vmpAvx : Bool
 
-def Cfg.m (c : Cfg) : Nat := c.nn / 2
+variable {α : Type}
 
-/-- `reim_from_znx64(module->mod.fft64.p_conv, …)` -/
-def fromZnx (c : Cfg) (x : Array Int) : Array Nat :=
-  if c.fromBnd50 then Conv.fromZnx64Bnd50 c.m x else Conv.fromZnx64Ref c.m x
+def Parts.m (c : Parts α) : Nat := c.nn / 2
 
-def fft (c : Cfg) (d : Array Nat) : Array Nat := Fft.reimFft (if c.fftFma then "fma" else "ref") c.m c.fftT d
-def ifft (c : Cfg) (d : Array Nat) : Array Nat := Fft.reimIfft (if c.ifftFma then "fma" else "ref") c.m c.ifftT d
-
-/-- `reim_to_znx64(module->mod.fft64.p_reim_to_znx, …)`: divisor = m -/
-def toZnx (c : Cfg) (d : Array Nat) : Array Int := Conv.toZnx64 c.toVariant c.m (F64.ofNat c.m) d
-
-/-- `reim_fftvec_mul(module->mod.fft64.mul_fft, r, a, b)` (the result buffer content is irrelevant: every cell is overwritten) -/
-def mul (c : Cfg) (a b : Array Nat) : Array Nat :=
-  let r := Array.replicate c.nn 0
-  if c.mulFma then (reimFftvecMulFma F64.arith c.m r a b).getD r else reimFftvecMulRef F64.arith c.m r a b
+/-- `reim_fftvec_mul(module->mod.fft64.mul_fft, r, a, b)` (every cell of the result is overwritten) -/
+def mul (c : Parts α) (a b : Array α) : Array α :=
+  let r := Array.replicate c.nn c.ar.zero
+  if c.mulFma then (reimFftvecMulFma c.ar c.m r a b).getD r else reimFftvecMulRef c.ar c.m r a b
 
 /-- `reim_fftvec_addmul(module->mod.fft64.p_addmul, r, a, b)`: r += a*b -/
-def addmul (c : Cfg) (r a b : Array Nat) : Array Nat :=
-  if c.addmulFma then (reimFftvecAddmulFma F64.arith c.m r a b).getD r else reimFftvecAddmulRef F64.arith c.m r a b
+def addmul (c : Parts α) (r a b : Array α) : Array α :=
+  if c.addmulFma then (reimFftvecAddmulFma c.ar c.m r a b).getD r else reimFftvecAddmulRef c.ar c.m r a b
 
 def limbOf (x : Array Int) (i sl nn : Nat) : Array Int := x.extract (i * sl) (i * sl + nn)
-def dlimb (x : Array Nat) (i nn : Nat) : Array Nat := x.extract (i * nn) (i * nn + nn)
+def dlimb (x : Array α) (i nn : Nat) : Array α := x.extract (i * nn) (i * nn + nn)
 
 /-- `fft64_znx_small_single_product` -/
-def smallProduct (c : Cfg) (a b : Array Int) : Array Int :=
-  toZnx c (ifft c (mul c (fft c (fromZnx c a)) (fft c (fromZnx c b))))
+def smallProduct (c : Parts α) (a b : Array Int) : Array Int :=
+  c.toZnx (c.ifft (mul c (c.fft (c.fromZnx a)) (c.fft (c.fromZnx b))))
 
-/-- `fft64_vec_znx_dft(res, res_size, a, a_size, a_sl)`: returns `res_size * nn` doubles -/
-def vecDft (c : Cfg) (rsz : Nat) (a : Array Int) (asz asl : Nat) : Array Nat :=
+/-- `fft64_vec_znx_dft(res, res_size, a, a_size, a_sl)`: returns `res_size * nn` cells -/
+def vecDft (c : Parts α) (rsz : Nat) (a : Array Int) (asz asl : Nat) : Array α :=
   (List.range rsz).foldl (fun acc i =>
-    acc ++ (if i < asz then fft c (fromZnx c (limbOf a i asl c.nn)) else Array.replicate c.nn 0)) #[]
+    acc ++ (if i < asz then c.fft (c.fromZnx (limbOf a i asl c.nn)) else Array.replicate c.nn c.ar.zero)) #[]
 
 /-- `fft64_svp_prepare_ref` -/
-def svpPrepare (c : Cfg) (pol : Array Int) : Array Nat := fft c (fromZnx c pol)
+def svpPrepare (c : Parts α) (pol : Array Int) : Array α := c.fft (c.fromZnx pol)
 
 /-- `fft64_svp_apply_dft_ref` -/
-def svpApply (c : Cfg) (rsz : Nat) (ppol : Array Nat) (a : Array Int) (asz asl : Nat) : Array Nat :=
+def svpApply (c : Parts α) (rsz : Nat) (ppol : Array α) (a : Array Int) (asz asl : Nat) : Array α :=
   (List.range rsz).foldl (fun acc i =>
-    acc ++ (if i < asz then mul c (fft c (fromZnx c (limbOf a i asl c.nn))) ppol else Array.replicate c.nn 0)) #[]
+    acc ++ (if i < asz then mul c (c.fft (c.fromZnx (limbOf a i asl c.nn))) ppol else Array.replicate c.nn c.ar.zero)) #[]
 
-/-- `fft64_vec_znx_idft` / `_tmp_a` (the result is the same; they differ in what happens to the source) -/
-def vecIdft (c : Cfg) (rsz : Nat) (d : Array Nat) (dsz : Nat) : Array Int :=
+/-- `fft64_vec_znx_idft` / `_tmp_a` (same result; they differ in what happens to the source) -/
+def vecIdft (c : Parts α) (rsz : Nat) (d : Array α) (dsz : Nat) : Array Int :=
   (List.range rsz).foldl (fun acc i =>
-    acc ++ (if i < dsz then toZnx c (ifft c (dlimb d i c.nn)) else Array.replicate c.nn 0)) #[]
+    acc ++ (if i < dsz then c.toZnx (c.ifft (dlimb d i c.nn)) else Array.replicate c.nn 0)) #[]
 
 /-! ### vector-matrix product -/
 
-def writeAt (dst : Array Nat) (off : Nat) (src : Array Nat) : Array Nat :=
+def writeAt (dst : Array α) (off : Nat) (src : Array α) : Array α :=
   Nat.fold src.size (fun i _ d => d.setIfInBounds (off + i) src[i]) dst
 
-/-- `fft64_vmp_prepare_contiguous_{ref,avx}`: returns the prepared matrix (`nn*nrows*ncols` doubles) -/
-def vmpPrepare (c : Cfg) (mat : Array Int) (nrows ncols : Nat) : Array Nat :=
+/-- start offset of (row, col) of block 0 in the prepared layout for `nn ≥ 8`: column pairs interleaved
+    row-major, lone last column when `ncols` is odd -/
+def pmatStart (nrows ncols row col : Nat) : Nat :=
+  if col == ncols - 1 && ncols % 2 == 1 then col * nrows * 8 + row * 8
+  else (col / 2) * (2 * nrows) * 8 + row * 2 * 8 + (col % 2) * 8
+
+/-- `fft64_vmp_prepare_contiguous_{ref,avx}`: returns the prepared matrix (`nn*nrows*ncols` cells) -/
+def vmpPrepare (c : Parts α) (mat : Array Int) (nrows ncols : Nat) : Array α :=
   let nn := c.nn
   let m := c.m
-  let pm := Array.replicate (nn * nrows * ncols) 0
+  let z := c.ar.zero
+  let pm := Array.replicate (nn * nrows * ncols) z
   let offset := nrows * ncols * 8
   (List.range nrows).foldl (fun pm row =>
     (List.range ncols).foldl (fun pm col =>
-      let t := fft c (fromZnx c (mat.extract ((row * ncols + col) * nn) ((row * ncols + col) * nn + nn)))
+      let t := c.fft (c.fromZnx (mat.extract ((row * ncols + col) * nn) ((row * ncols + col) * nn + nn)))
       if nn ≥ 8 then
-        let start :=
-          if col == ncols - 1 && ncols % 2 == 1 then col * nrows * 8 + row * 8
-          else (col / 2) * (2 * nrows) * 8 + row * 2 * 8 + (col % 2) * 8
         (List.range (m / 4)).foldl (fun pm blk =>
-          writeAt pm (start + blk * offset) (extract1blkFromReimRef 0 m blk (Array.replicate 8 0) t)) pm
+          writeAt pm (pmatStart nrows ncols row col + blk * offset) (extract1blkFromReimRef z m blk (Array.replicate 8 z) t)) pm
       else writeAt pm ((col * nrows + row) * nn) t) pm) pm
 
-/-- `fft64_vmp_apply_dft_to_dft_{ref,avx}`: returns `res_size * nn` doubles -/
-def vmpApplyDftToDft (c : Cfg) (rsz : Nat) (adft : Array Nat) (asz : Nat) (pmat : Array Nat) (nrows ncols : Nat) : Array Nat :=
+/-- `fft64_vmp_apply_dft_to_dft_{ref,avx}`: returns `res_size * nn` cells -/
+def vmpApplyDftToDft (c : Parts α) (rsz : Nat) (adft : Array α) (asz : Nat) (pmat : Array α) (nrows ncols : Nat) : Array α :=
   let nn := c.nn
   let m := c.m
+  let z := c.ar.zero
   let rowMax := min nrows asz
   let colMax := min ncols rsz
-  let res := Array.replicate (rsz * nn) 0
-  let ar := F64.arith
-  let prod2 := fun (u v : Array Nat) =>
-    if c.vmpAvx then vecMat2colsProductAvx2 ar rowMax (Array.replicate 16 0) u v else vecMat2colsProductRef ar rowMax (Array.replicate 16 0) u v
-  let prod1 := fun (u v : Array Nat) =>
-    if c.vmpAvx then vecMat1colProductAvx2 ar rowMax (Array.replicate 8 0) u v else vecMat1colProductRef ar rowMax (Array.replicate 8 0) u v
+  let res := Array.replicate (rsz * nn) z
+  let ar := c.ar
+  let prod2 := fun (u v : Array α) =>
+    if c.vmpAvx then vecMat2colsProductAvx2 ar rowMax (Array.replicate 16 z) u v else vecMat2colsProductRef ar rowMax (Array.replicate 16 z) u v
+  let prod1 := fun (u v : Array α) =>
+    if c.vmpAvx then vecMat1colProductAvx2 ar rowMax (Array.replicate 8 z) u v else vecMat1colProductRef ar rowMax (Array.replicate 8 z) u v
   if nn ≥ 8 then
     (List.range (m / 4)).foldl (fun res blk =>
       let matBlk := blk * (8 * nrows * ncols)
-      let ext := extract1blkFromContiguousReimRef 0 m rowMax blk (Array.replicate (8 * rowMax) 0) adft
-      -- column pairs
-      let save := fun (res : Array Nat) (col : Nat) (o8 : Array Nat) =>
+      let ext := extract1blkFromContiguousReimRef z m rowMax blk (Array.replicate (8 * rowMax) z) adft
+      let save := fun (res : Array α) (col : Nat) (o8 : Array α) =>
         writeAt (writeAt res (col * nn + 4 * blk) (o8.extract 0 4)) (col * nn + m + 4 * blk) (o8.extract 4 8)
+      -- column pairs  (`col_i + 1 < col_max`)
       let res := (List.range (colMax / 2)).foldl (fun res t =>
         let col := 2 * t
         let v0 := matBlk + col * (8 * nrows)
@@ -134,9 +132,32 @@ def vmpApplyDftToDft (c : Cfg) (rsz : Nat) (adft : Array Nat) (asz : Nat) (pmat 
         writeAt res (col * nn) r) res
 
 /-- `fft64_vmp_apply_dft_{ref,avx}` -/
-def vmpApplyDft (c : Cfg) (rsz : Nat) (a : Array Int) (asz asl : Nat) (pmat : Array Nat) (nrows ncols : Nat) : Array Nat :=
+def vmpApplyDft (c : Parts α) (rsz : Nat) (a : Array Int) (asz asl : Nat) (pmat : Array α) (nrows ncols : Nat) : Array α :=
   let rows := min nrows asz
   vmpApplyDftToDft c rsz (vecDft c rows a asz asl) asz pmat nrows ncols
+
+/-! ### the binary64 instance: what the library executes -/
+
+structure Cfg where
+  nn : Nat
+  fftFma : Bool          -- reim_fft_avx2_fma installed (else reim_fft_ref)
+  ifftFma : Bool
+  fromBnd50 : Bool       -- reim_from_znx64_bnd50_fma installed (else plain cast)
+  toVariant : Conv.ToZnx64Variant   -- the module builds its table with divisor m, log2bound 63
+  mulFma : Bool          -- reim_fftvec_mul_fma
+  addmulFma : Bool       -- reim_fftvec_addmul_fma
+  vmpAvx : Bool          -- fft64_vmp_*_avx
+  fftT : Array Nat
+  ifftT : Array Nat
+
+def Cfg.parts (c : Cfg) : Parts Nat :=
+  let m := c.nn / 2
+  { nn := c.nn, ar := F64.arith,
+    fromZnx := fun x => if c.fromBnd50 then Conv.fromZnx64Bnd50 m x else Conv.fromZnx64Ref m x,
+    fft := fun d => Fft.reimFft (if c.fftFma then "fma" else "ref") m c.fftT d,
+    ifft := fun d => Fft.reimIfft (if c.ifftFma then "fma" else "ref") m c.ifftT d,
+    toZnx := fun d => Conv.toZnx64 c.toVariant m (F64.ofNat m) d,
+    mulFma := c.mulFma, addmulFma := c.addmulFma, vmpAvx := c.vmpAvx }
 
 end Module
 end Spq
